@@ -70,19 +70,26 @@ func (g *Guard) Free() {
 // Faulting runs f with faults turned into panics and reports a fault (or any
 // panic) as a string
 func Faulting(f func()) (fault string) {
+	fault, _ = FaultAt(f)
+	return fault
+}
+
+// FaultAt is Faulting that also returns the faulting address (0 for a panic that is no fault)
+func FaultAt(f func()) (fault string, addr uintptr) {
 	old := debug.SetPanicOnFault(true)
 	defer debug.SetPanicOnFault(old)
 	defer func() {
 		if r := recover(); r != nil {
 			if e, ok := r.(interface{ Addr() uintptr }); ok {
 				fault = fmt.Sprintf("fault at address %#x: %v", e.Addr(), r)
+				addr = e.Addr()
 				return
 			}
 			fault = fmt.Sprintf("panic: %v", r)
 		}
 	}()
 	f()
-	return ""
+	return "", 0
 }
 
 // Ref is a reference from a value into memory
